@@ -4,10 +4,11 @@
   (`none` = not my command).
 -/
 import Driver.C01
+import Driver.Hist
 open MongoModel.Wire
 
 def handlers : List (List String → Option (List String)) :=
-  [Driver.handleC01]
+  [Driver.handleC01, Driver.handleHist]
 
 def handle (ts : List String) : List String :=
   match handlers.findSome? (· ts) with
